@@ -155,6 +155,7 @@ Section WithTable.
                            end in
     match accept_conn reg dec is_id code_fixed_F04 limit segs with
     | AcRejected => ([], true)
+    | AcEnded _ => ([], false)
     | AcHandled _ d x => (map snd d, match x with FinClosed => true | _ => false end)
     end.
 
